@@ -83,6 +83,28 @@ type Endpoint struct {
 	ReadLog []byte
 	// ShortReads / FullReads override the run configuration when set.
 	ReadPolicy int
+	// Users are the ids of the tasks that performed I/O on this end.
+	Users []string
+}
+
+func (e *Endpoint) noteUser(t *Task) {
+	for _, u := range e.Users {
+		if u == t.id {
+			return
+		}
+	}
+	e.Users = append(e.Users, t.id)
+}
+
+// UsedBy reports whether the task with the given id, or one of its
+// descendants, performed I/O on this end.
+func (e *Endpoint) UsedBy(id string) bool {
+	for _, u := range e.Users {
+		if u == id || (len(u) > len(id) && u[:len(id)] == id && u[len(id)] == '.') {
+			return true
+		}
+	}
+	return false
 }
 
 // Listener is a simulated listening socket.
@@ -108,6 +130,9 @@ type Listener struct {
 	BindSeq       uint64
 	// LastTimeoutOpen is the number of accepted connections whose server end was open at the last expiry.
 	TimeoutLog []TimeoutRec
+
+	hadTimeout   bool
+	sigAtTimeout uint64
 }
 
 // TimeoutRec describes one accept-deadline expiry returned to the caller.
@@ -431,6 +456,12 @@ func (k *Kernel) accept(t *Task, l *Listener) {
 }
 
 func (k *Kernel) acceptTimeout(t *Task, l *Listener) {
+	if l.hadTimeout && l.sigAtTimeout == k.significant {
+		k.idleCycle = true
+	}
+	l.hadTimeout = true
+	l.sigAtTimeout = k.significant
+	k.timeoutTask = t
 	l.Timeouts++
 	l.TimeoutLog = append(l.TimeoutLog, TimeoutRec{k.step, k.Elapsed(), k.openAccepted(l)})
 	k.Fault(fmt.Sprintf("accept_timeout[open=%v]", k.openAccepted(l) > 0))
@@ -534,6 +565,7 @@ func (k *Kernel) takeBytes(p *pipe, n int) []byte {
 }
 
 func (k *Kernel) read(t *Task, e *Endpoint, max int) {
+	e.noteUser(t)
 	if e.Closed || e.rClosed {
 		k.complete(t, result{err: eClosed})
 		return
@@ -777,6 +809,7 @@ func (k *Kernel) writerEnd(p *pipe) *Endpoint {
 }
 
 func (k *Kernel) write(t *Task, e *Endpoint, b []byte) {
+	e.noteUser(t)
 	if e.Closed || e.wClosed {
 		k.complete(t, result{err: eClosed})
 		return
